@@ -263,6 +263,12 @@ def discOf : Val → Option Nat
   | .verdict false _ => some 1
   | _ => none
 
+/-- The examinee of a `match` is an `i32?` (`isOpt`) or a value of the enum `E` (three variants). -/
+def examineeOk (isOpt : Bool) : Val → Bool
+  | .opt _ => isOpt
+  | .enm k _ => !isOpt && decide (k < 3)
+  | _ => false
+
 /-- The fields of an enum value's variant. -/
 def fieldsOf : Val → List Int
   | .opt (some n) => [n]
@@ -375,9 +381,10 @@ def evalExpr (fns : List FnDef) : Nat → Env → Expr → R (Env × Val)
         | _ => .stuck "if without else: the block must have type ()"
       | .bool false => pure (env, .unit)
       | _ => .stuck "if on non-bool"
-    | .mtch s _ arms => do
+    | .mtch s isOpt arms => do
       let (env, v) ← evalExpr fns n env s
-      evalArms fns n env v arms
+      if examineeOk isOpt v then evalArms fns n env v arms
+      else .stuck "match: the examinee is not a value of the enum"
     | .while c b => evalWhile fns n env c b
     | .for x l b => do
       let (env, lv) ← evalExpr fns n env l
